@@ -94,15 +94,18 @@ func decToMinDec(dec float64, latitude bool) string {
 		sign = ' '
 	}
 
-	deg := int(dec)
-	min := (dec - float64(deg)) * 60.0
+	// Round to the printed resolution (1/10000 minute) before splitting into degrees and
+	// minutes, so that the minutes never round up to 60.0000.
+	total := int64(math.Round(math.Abs(dec) * 60 * 10000))
+	deg := total / (60 * 10000)
+	min := float64(total%(60*10000)) / 10000
 
 	var format string
 	if latitude {
-		format = "%02.0f-%07.4f%c"
+		format = "%02d-%07.4f%c"
 	} else {
-		format = "%03.0f-%07.4f%c"
+		format = "%03d-%07.4f%c"
 	}
 
-	return fmt.Sprintf(format, math.Abs(float64(deg)), math.Abs(min), sign)
+	return fmt.Sprintf(format, deg, min, sign)
 }
